@@ -498,6 +498,14 @@ func (pt Perturb) Apply(in []byte) ([]byte, error) {
 		if l.v == 4 {
 			refcodec.FixIPv4Checksum(b[l.q : l.q+l.qihl])
 		}
+	case "q.ihl":
+		// the quoted header claims another length (IP options): what follows its first 20 bytes is then not the transport
+		// header, and the quoted packet is not one this tool sent (its probes never carry options)
+		v := map[string]byte{"+1": 6, "-1": 4, "+256": 7, "-256": 15, "swap": 8, "zero": 0, "other": 10}[pt.Op]
+		b[l.q] = b[l.q]&0xf0 | v
+		if n := int(v) * 4; v >= 5 && l.q+n <= len(b) {
+			refcodec.FixIPv4Checksum(b[l.q : l.q+n])
+		}
 	case "q.ipid":
 		u16(l.q + 4)
 		refcodec.FixIPv4Checksum(b[l.q : l.q+l.qihl])
